@@ -138,11 +138,22 @@ def rule_a(repo, chk):
         # the edge on which "calling thread == owner thread" is known: `==` true or `!=` false
         if e.src.kind != 'test' or e.kind not in ('T', 'F'):
             return False
-        s = src(e.src.ast)
-        if not ('get_ident()' in s or 'current_thread()' in s):
+        t = _ident_expr(e.src.ast)
+        if t is None:
             return False
-        fact = pat.compare_fact(e.src.ast, e.kind)
+        fact = pat.compare_fact(t, e.kind)
         return fact is not None and fact[1] in ('==', 'is')
+
+    def _ident_expr(t):
+        # the comparison with the identity of the calling thread, directly or through a local that holds its result
+        s_ = src(t)
+        if 'get_ident()' in s_ or 'current_thread()' in s_:
+            return t
+        if isinstance(t, ast.Name):
+            vs = pat.deref(f, t)
+            if len(vs) == 1 and isinstance(vs[0], ast.Compare) and ('get_ident()' in src(vs[0]) or 'current_thread()' in src(vs[0])):
+                return vs[0]
+        return None
 
     unlocked = [n for n in apps if not _under(n, 'self._lock')]
     locked = [n for n in apps if _under(n, 'self._lock')]
@@ -153,7 +164,7 @@ def rule_a(repo, chk):
     chk.ob('a', f.ref, 'the foreign-thread branch appends under the manager lock', bool(locked), loc(f, f.node),
            discr='locked-append-exists')
     # every path through _fire that fails the identity test appends under the lock
-    tests = [n for n in g.nodes if n.kind == 'test' and ('get_ident()' in src(n.ast) or 'current_thread()' in src(n.ast))]
+    tests = [n for n in g.nodes if n.kind == 'test' and _ident_expr(n.ast) is not None]
     need(tests, 'C03.a: no thread identity test in _fire')
     # the identity is compared against the executing or flushing thread
     th_ok = False
@@ -286,21 +297,36 @@ def rule_c(repo, chk):
                                                                  for c in calls_in(n.ast))]
 
         def skip(e):
-            if e.src.kind != 'test' or e.kind != 'F':
+            # edges on which there is nothing to resume: the budget is not 0, no handler is recorded, it has no resume method
+            if e.src.kind != 'test' or e.kind not in ('T', 'F'):
                 return False
-            s = src(e.src.ast)
-            return 'self._time_left' in s or 'self.handler' in s or any(v in Q.names_used(e.src.ast) for v in resume_vars)
+            fc = pat.compare_fact(e.src.ast, e.kind)
+            if pat.fact_matches(fc, 'self._time_left', ('!=', '>', '<'), '0') or pat.fact_matches(fc, 'self.handler', ('is', '=='), 'None'):
+                return True
+            if any(pat.fact_matches(fc, v, ('is', '=='), 'None') for v in resume_vars):
+                return True
+            if e.kind == 'F' and (src(e.src.ast) in resume_vars or (isinstance(e.src.ast, ast.Call) and call_name(e.src.ast) == 'ismethod')):
+                return True
+            return False
         path = Q.escapes(g, [w], lambda n: n in calls, avoid_edge=skip) if calls else []
         chk.ob('c', f.ref, 'after lowering the budget, resume() of the recorded handler is attempted whenever the budget is 0',
                bool(calls) and path is None, loc(f, w.ast), path=pat.path_lines(path, w) if path else None, discr='resume-attempt')
-        zero = [n for n in g.nodes if n.kind == 'test' and pat.fact_matches(pat.compare_fact(n.ast, 'T'), 'self._time_left', ('==', '<='), '0')]
+        zero = [n for n in g.nodes if n.kind == 'test' and any(pat.fact_matches(pat.compare_fact(n.ast, pol), 'self._time_left', ('==', '<='), '0') for pol in ('T', 'F'))]
         chk.ob('c', f.ref, 'the resume attempt is conditioned on the budget being 0 (not on the request only)', bool(zero) or not calls,
                loc(f, w.ast), discr='resume-at-zero', nontrivial=False)
         for c in calls:
             chk.ob('c', f.ref, 'resume() is called under the event lock', _under(c, 'self._lock'), loc(f, c.ast), discr='resume-locked')
-        tgt = any("'im_self'" in src(n.value) or '__self__' in src(n.value) for n in walk_no_defs(f.node) if isinstance(n, ast.Assign)
-                  and "'resume'" in src(n.value)) and any('self.handler' in src(n.value) for n in walk_no_defs(f.node)
-                                                          if isinstance(n, ast.Assign) and "'resume'" in src(n.value))
+        tgt = False
+        for n in walk_no_defs(f.node):
+            if isinstance(n, ast.Assign) and "'resume'" in src(n.value):
+                # the object resume is looked up on, seen through a local (`owner = getattr(self.handler, 'im_self', …); getattr(owner, 'resume', None)`)
+                texts = [src(n.value)]
+                for c_ in calls_in(n.value):
+                    if call_name(c_) == 'getattr' and c_.args:
+                        texts += [src(v) for v in pat.deref(f, c_.args[0])]
+                joined = ' '.join(texts)
+                if ("'im_self'" in joined or '__self__' in joined) and 'self.handler' in joined:
+                    tgt = True
         chk.ob('c', f.ref, 'resume is looked up on the component owning the recorded handler', tgt, loc(f, f.node),
                discr='resume-target', nontrivial=False)
     # the dispatcher records the handler before invoking it
